@@ -86,6 +86,8 @@ def fam_timing(seed, n_random, big):
     back-off interval (first / middle / last nanosecond), exactly at the deadline, or never."""
     rng = random.Random(seed * 12289 + 13)
     durs = [0, 1, 500_000, MS, 7 * MS, 150 * MS, 2 * S, 3 * 3600 * S]
+    # beyond 2^32 ms (49.7 days): a millisecond count narrowed to 32 bits shows
+    huge = [(2**32) * MS, (2**32) * MS + 250 * MS, 60 * DAY, 100 * DAY + 1]
     if big:
         durs += [26 * DAY, 30 * DAY]
     out = []
@@ -115,6 +117,17 @@ def fam_timing(seed, n_random, big):
                     sc["ops"] += [["kill"], ["wait"]]
                 i += 1
                 out.append(sc)
+    for d in huge:
+        for e in (None, 0, 2 * S, d // 2, d - 1, d):
+            if e is None and not big:
+                # "never": 10^7 .. 10^8 back-off iterations, thorough tier only
+                continue
+            sc = {"id": "t%d" % i, "exit": {"k": "exited", "v": 9, "at": e},
+                  "ops": [["wait_timeout", d], ["poll"], ["wait_timeout", d]], "drop": True, "overshoot": 0}
+            if e is None:
+                sc["ops"] += [["kill"], ["wait"]]
+            i += 1
+            out.append(sc)
     for _ in range(n_random):
         d = rng.choice(durs[:8]) + rng.choice([0, 1, 999, 123_456])
         e = rng.choice([None, rng.randint(0, max(1, min(d * 2, 5 * S)))])
